@@ -195,9 +195,7 @@ void parse_opml_token_chain(mmd_engine * e, token * chain) {
 	token * walker = chain->next;				// Walk the existing tree
 	token * remainder;							// Hold unparsed tail of chain
 
-#ifndef NDEBUG
-	OPMLTrace(stderr, "parser >>");
-#endif
+	// OPMLTrace(stderr, "parser >>");
 
 	// Remove existing token tree
 	e->root = NULL;
